@@ -493,6 +493,24 @@ func (g *Gen) propName() *ast.Identifier {
 	return g.Ident(g.plainName())
 }
 
+// indirectVar draws $name behind min or more further '$' ("$$a", "$$$a", ...): one ExprVariable per
+// '$', the outermost first. One time in four the depth is raised by one to three levels (both grammars
+// build the nest with a loop over the '$' tokens; one level cannot tell the loop's direction).
+func (g *Gen) indirectVar(min int) *ast.ExprVariable {
+	levels := min
+	if g.chance(1, 4, "indirectlevels") {
+		levels += g.rng(1, 3, "moreindirect")
+	}
+	v := g.simpleVar()
+	for i := 0; i < levels; i++ {
+		v = &ast.ExprVariable{DollarTkn: g.ch('$'), Name: v}
+	}
+	if levels >= 2 {
+		g.feat("indirect-variable-depth>=2")
+	}
+	return v
+}
+
 // Variable draws a variable expression with up to n suffixes. If writable the
 // chain does not end in a call.
 func (g *Gen) Variable(n int, writable bool) ast.Vertex {
@@ -503,14 +521,14 @@ func (g *Gen) Variable(n int, writable bool) ast.Vertex {
 	switch g.intn(10, "varbase") {
 	case 0:
 		g.feat("var-var")
-		v = &ast.ExprVariable{DollarTkn: g.ch('$'), Name: g.simpleVar()}
+		v = g.indirectVar(1)
 		indirect = true
 	case 1:
 		g.feat("var-curly")
 		v = &ast.ExprVariable{DollarTkn: g.ch('$'), OpenCurlyBracketTkn: g.ch('{'), Name: g.Expr(), CloseCurlyBracketTkn: g.ch('}')}
 	case 2:
 		g.feat("static-prop")
-		v = &ast.ExprStaticPropertyFetch{Class: g.classRef(true), DoubleColonTkn: g.tok(token.T_PAAMAYIM_NEKUDOTAYIM, "::"), Prop: g.simpleVar()}
+		v = &ast.ExprStaticPropertyFetch{Class: g.classRef(true), DoubleColonTkn: g.tok(token.T_PAAMAYIM_NEKUDOTAYIM, "::"), Prop: g.indirectVar(0)}
 		indirect = true
 	default:
 		v = g.simpleVar()
@@ -721,7 +739,7 @@ func (g *Gen) memberSlot(open **token.Token, name *ast.Vertex, close **token.Tok
 	switch g.intn(6, "member") {
 	case 0:
 		g.feat("member-variable")
-		*name = g.simpleVar()
+		*name = g.indirectVar(0)
 	case 1:
 		g.feat("member-curly")
 		*open, *name, *close = g.ch('{'), g.Expr(), g.ch('}')
@@ -771,7 +789,7 @@ func (g *Gen) callLike() ast.Vertex {
 		n := &ast.ExprStaticCall{Class: g.classRef(true), DoubleColonTkn: g.tok(token.T_PAAMAYIM_NEKUDOTAYIM, "::"), OpenParenthesisTkn: g.ch('('), CloseParenthesisTkn: g.ch(')')}
 		switch g.intn(5, "staticcallname") {
 		case 0:
-			n.Call = g.simpleVar()
+			n.Call = g.indirectVar(0)
 		case 1:
 			g.feat("static-call-curly")
 			n.OpenCurlyBracketTkn, n.Call, n.CloseCurlyBracketTkn = g.ch('{'), g.Expr(), g.ch('}')
